@@ -32,7 +32,7 @@ COMPONENTS = {"real": ["ECAgent.Core.Model.random", "Environment.get_random_agen
                        "numpy.random are perturbed, not replaced"]}
 PROBES = ["perturb_inside_timestep", "perturb_between_timesteps", "other_model_same_seed_interleaved",
           "filtered_pick_2plus_candidates", "reseed", "consume", "np_seed", "np_rand", "new_model", "step_other",
-          "string_seed", "spatial_world"]
+          "string_seed", "spatial_world", "environment_handed_to_another_model"]
 TECHNIQUE = "deterministic simulation: seeded perturbation schedule over every ambient randomness source (global RNGs, other models, hash seed, worker process) with a single-digest oracle"
 LEVEL_TEXT = ("Seeded search over model configurations, seeds and ambient perturbation schedules; the full trace digest of the "
               "perturbed run must equal that of an undisturbed run of the same (seed, cfg), and so must every other live model "
@@ -75,10 +75,61 @@ def generate(rng, tier):
         p["where"] = "between" if rng.random() < 0.5 or not cfg["ambient"] else rng.randrange(len(cfg["ambient"]))
         perturb.append(p)
     pre = [gen_op(rng) for _ in range(rng.randint(0, 3))]
-    return {"seed": seed, "cfg": cfg, "alt_cfg": alt, "others": others, "perturb": perturb, "pre": pre}
+    handover = None
+    if rng.random() < 0.3:
+        # an environment populated under a builder model and then handed to the run model (Environment.set_model)
+        handover = {"builder_seed": gen_seed(rng), "other_builder_seed": gen_seed(rng), "pre_queries": rng.randint(0, 6),
+                    "world": rng.choice(["plain", "grid", "space"]), "agents": rng.randint(2, 9), "queries": rng.randint(2, 8)}
+    return {"seed": seed, "cfg": cfg, "alt_cfg": alt, "others": others, "perturb": perturb, "pre": pre, "handover": handover}
+
+
+def handover_trace(seed_t, seed_b, pre, h):
+    """Random queries of an environment after it was handed from a builder model to the run model."""
+    from ECAgent.Core import Agent, Environment, Model
+    from ECAgent.Environments import GridWorld, SpaceWorld
+    b = Model(seed=seed_b)
+    if h["world"] == "grid":
+        env = GridWorld(b, 4, 3)
+    elif h["world"] == "space":
+        env = SpaceWorld(b, 4.0, 3.0)
+    else:
+        env = Environment(b)
+    b.set_environment(env)
+    for i in range(int(h["agents"])):
+        a = Agent(f"h{i}", b, tag=i % 3)
+        if i % 4 != 3:
+            a.add_component(chaos.Wealth(a, b, i))
+        if h["world"] == "plain":
+            env.add_agent(a)
+        else:
+            env.add_agent(a, i % 4, i % 3)
+    for _ in range(int(pre)):                      # the builder's own use of the environment
+        env.get_random_agent()
+        env.shuffle(chaos.Wealth)
+    t = Model(seed=seed_t)
+    env.set_model(t)
+    t.set_environment(env)
+    out = []
+    for q in range(int(h["queries"])):
+        p = env.get_random_agent()
+        out.append(["pick", p.id if p else None])
+        out.append(["shuffle", [a.id for a in env.shuffle(chaos.Wealth)]])
+        p2 = env.get_random_agent(chaos.Wealth, tag=q % 3)
+        out.append(["fpick", p2.id if p2 else None])
+    return out
 
 
 def execute(sc, ctx):
+    h = sc.get("handover")
+    if h:
+        ctx.fault("ambient.other_model_builder")
+        ctx.probe("environment_handed_to_another_model")
+        ref_t = handover_trace(sc["seed"], h["other_builder_seed"], 0, h)
+        got_t = handover_trace(sc["seed"], h["builder_seed"], h["pre_queries"], h)
+        ctx.event("handover", ref_t[:3])
+        ctx.check(got_t == ref_t, "trajectory-depends-on-previous-model",
+                  lambda: f"after Environment.set_model the picks of the new model (seed {sc['seed']!r}) depend on the builder "
+                          f"model's seed / earlier draws: {got_t[:4]} vs {ref_t[:4]}")
     cfg = sc["cfg"]
     seed = sc["seed"]
     key = json.dumps(cfg, sort_keys=True)
